@@ -30,6 +30,9 @@ CHECKS = {
             '{cycle,start,stop} chosen by symbolic selectors, incl. start/stop issued from inside a state function (second actor between two steps); '
             'assertions on the full event log: bounded cycle, never raises, init flag, cleanup exactly once and run to completion, last request wins; '
             'plus a Drivable on HasStates for the busy/final status', '5/C14'),
+    'C20': ('model_checking', 'routing: real RemoteLogHandler + setRemoteLogging + dispatcher logging/reset/remove under operation sequences chosen by '
+            'symbolic selectors on 2 connections x 2 modules against a table model; rotation: the real doRollover (incl. the mlzlog super call) on a '
+            'real scratch directory with a symbolic retention count resolved by the solver value by value, two rollovers', '5/C20'),
 }
 NOT_YET = 'check not built yet in this round (planned per DESIGN.md section 5); not claimed until its harness runs clean'
 NOT_APPLICABLE = {}
